@@ -1089,6 +1089,15 @@ class Interp:
             if any(d in ('staticmethod',) for d in m.decorators):
                 return m.node, False, m
             return m.node, True, m
+        if isinstance(f, ast.Attribute) and isinstance(f.value, (ast.Name, ast.Attribute)) and self.model is not None and fn is not None \
+           and f.attr.startswith('_') and not f.attr.startswith('__') and _text(f) not in s.env:
+            root = f.value
+            while isinstance(root, ast.Attribute):
+                root = root.value
+            if isinstance(root, ast.Name) and root.id not in s.env and root.id not in self._locals():
+                r = self.model.resolve_expr(fn, f)       # ClassName._helper(obj, ...): a private method called through its class
+                if isinstance(r, M.FunctionInfo):
+                    return r.node, False, r
         if isinstance(f, ast.Attribute) and self.model is not None and self.heap:
             # method of a heap object of a repository class:  self.parent.keys()
             recv = None
@@ -1688,7 +1697,32 @@ class Interp:
         return TOP
 
     def ev_Lambda(self, n, s):
-        return Sym('lambda@%d' % n.lineno)
+        # a lambda is a nested function whose body is `return <expr>`
+        fd = ast.FunctionDef(name='<lambda@%d>' % n.lineno, args=n.args, body=[ast.Return(value=n.body)], decorator_list=[], returns=None, type_comment=None)
+        for x in (fd, fd.body[0]):
+            ast.copy_location(x, n)
+        return Sym('func:<lambda@%d>' % n.lineno, truthy=True, attrs={'node': fd})
+
+    def call_value(self, fval, argvalues, s, lineno=0):
+        """Apply a function value (nested function / lambda) to values; (result,) when it has exactly one outcome, else None."""
+        if not (isinstance(fval, Sym) and isinstance(fval.attrs.get('node'), ast.FunctionDef)):
+            return None
+        d = len(self._inline_stack)
+        fkey = '__fn@%d' % d
+        s.env[fkey] = fval
+        names = []
+        for i, v in enumerate(argvalues):
+            k = '__arg%d@%d' % (i, d)
+            s.env[k] = v
+            names.append(ast.Name(id=k, ctx=ast.Load()))
+        call = ast.Call(func=ast.Name(id=fkey, ctx=ast.Load()), args=names, keywords=[])
+        for x in ast.walk(call):
+            x.lineno, x.col_offset, x.end_lineno, x.end_col_offset = lineno, 0, lineno, 0
+        try:
+            return self._inline_single(call, s)
+        finally:
+            for k in [fkey] + [nm.id for nm in names]:
+                s.env.pop(k, None)
 
     def _comprehend(self, n, s, elt):
         """Evaluate a comprehension over known iterables (no forks inside: unknown tests give up)."""
@@ -2025,6 +2059,39 @@ class Interp:
             if isinstance(rr, tuple) and rr[0] == 'assign' and isinstance(rr[2][-1], ast.Call) \
                and _text(rr[2][-1].func).endswith('NewType'):
                 return args[0]
+        if isinstance(fval, M.External) and fval.name in ('itertools.takewhile', 'takewhile', 'itertools.dropwhile', 'dropwhile', 'filter', 'map') and len(args) == 2 \
+           or (isinstance(n.func, ast.Name) and n.func.id in ('filter', 'map') and n.func.id not in s.env and len(args) == 2):
+            kind = (fval.name if isinstance(fval, M.External) else n.func.id).split('.')[-1]
+            seq = args[1]
+            if isinstance(seq, Iter) and not isinstance(seq, CountIter):
+                seq = seq.items[seq.pos:]
+            if isinstance(seq, (list, tuple)) and len(seq) <= 64:
+                out, ok, dropping = [], True, True
+                for item in seq:
+                    r = self.call_value(args[0], [item], s, n.lineno)
+                    if r is None:
+                        ok = False
+                        break
+                    t = self.truth_in(r[0], s) if kind != 'map' else None
+                    if kind == 'map':
+                        out.append(r[0])
+                    elif t is None:
+                        ok = False
+                        break
+                    elif kind == 'takewhile':
+                        if not t:
+                            break
+                        out.append(item)
+                    elif kind == 'dropwhile':
+                        if dropping and t:
+                            continue
+                        dropping = False
+                        out.append(item)
+                    elif t:
+                        out.append(item)
+                if ok:
+                    return Iter(out)
+            return TOP
         if isinstance(fval, M.External) and fval.name in ('itertools.count', 'count') and all(isinstance(a, int) for a in args) and len(args) <= 2 and not kwargs:
             return CountIter(*args)
         if isinstance(fval, M.External) and fval.name in ('re.sub', 're.findall', 're.split', 're.compile', 're.escape', 'string.Template') \
@@ -2142,6 +2209,10 @@ class Interp:
             if meth == 'extend' and len(args) == 1 and isinstance(args[0], (list, tuple)):
                 recv.extend(args[0])
                 return None
+            if meth == 'extend' and len(args) == 1 and isinstance(args[0], Iter) and not isinstance(args[0], CountIter):
+                recv.extend(args[0].items[args[0].pos:])
+                args[0].pos = len(args[0].items)
+                return None
             if meth == 'pop':
                 try:
                     return recv.pop(*[a for a in args if isinstance(a, int)])
@@ -2167,6 +2238,11 @@ class Interp:
                     return TOP
             if meth == 'reverse' and not args:
                 recv.reverse()
+                return None
+            if meth in ('append', 'extend', 'insert', 'pop', 'remove', 'clear', 'sort', 'reverse', '__setitem__', '__delitem__'):
+                self.imprecise.append('list.%s with arguments that are not modelled: its effect is lost' % meth)
+            if meth == 'clear' and not args:
+                del recv[:]
                 return None
             return TOP
         if isinstance(recv, dict):
